@@ -1433,3 +1433,65 @@ macro_rules! grad_engine {
 grad_engine!(C02Engine, Prop::C02, exec_c02, "c02");
 grad_engine!(C03Engine, Prop::C03, exec_c03, "c03");
 grad_engine!(C15Engine, Prop::C15, exec_c15, "c15");
+
+// ------------------------------------------------------------ C11: by-value consumers
+
+/// Every gradual type handed *by value* to every kind of std consumer on a tiny map:
+/// the shape in which a self-referential calculator is moved into a callee that reads
+/// through it and drops it (what Miri's aliasing models are strictest about).
+pub struct C11ConsumeEngine;
+
+impl Engine for C11ConsumeEngine {
+    type Case = GradCase;
+    fn name() -> &'static str {
+        "c11c"
+    }
+    fn gen(rng: &mut Rng, _tier: Tier) -> GradCase {
+        let map_mode = rng.weighted(&[40, 20, 20, 20]);
+        let mut sh = gen_shape(rng, map_mode, 6);
+        sh.n = 2 + rng.usize(4);
+        let map = gen_map(rng, &sh);
+        let target = if map_mode == 0 { rng.usize(4) } else { map_mode };
+        let mut ops = Vec::new();
+        for _ in 0..rng.usize(3) {
+            ops.push(if rng.chance(0.7) { GOp::Next } else { GOp::Move(rng.below(3) as u8) });
+        }
+        ops.push(match rng.below(8) {
+            0 => GOp::StepBy(1 + rng.below(3)),
+            1 => GOp::Skip(rng.below(3)),
+            2 => GOp::Take(1 + rng.below(4)),
+            3 => GOp::Last,
+            4 => GOp::Count,
+            5 => GOp::Collect,
+            6 => GOp::ZipTwin,
+            _ => GOp::ByRefNthThenCollect(rng.below(3)),
+        });
+        GradCase {
+            prop: Prop::C15,
+            map,
+            target,
+            api_enum: rng.chance(0.3),
+            diff: if rng.chance(0.5) { DiffSpec::default() } else { gen_diff(rng, target) },
+            drop_map_early: rng.chance(0.3),
+            ops,
+        }
+    }
+    fn exec(case: &GradCase, stats: &mut Stats) -> Option<Violation> {
+        exec_c15(case, stats)
+    }
+    fn simpler(case: &GradCase) -> Vec<GradCase> {
+        case_simpler(case)
+    }
+    fn to_json(case: &GradCase) -> Value {
+        case_to_json(case)
+    }
+    fn from_json(v: &Value) -> GradCase {
+        case_from_json(v)
+    }
+    fn signature(case: &GradCase) -> u64 {
+        signature(case)
+    }
+    fn nontrivial(_case: &GradCase) -> bool {
+        true
+    }
+}
